@@ -775,6 +775,30 @@ static void run(int tier, long idx, vf_result *r)
 	    goto done;
 	}
 	base.noise = 0.0;	/* only claimed for model-consistent data */
+	/* second pass: the set with one more standard, a reflection of
+	   unknown value on port 1 (the iterative solver runs; after the
+	   renumbering the unknown sits on another port) */
+	for (int upass = 0; upass < 2; ++upass) {
+	if (upass == 1) {
+	    cs_param q;
+	    cs_std *st;
+	    if (base.nstd + 1 > CS_MAXSTD || base.nparam + 1 > CS_MAXPARAM)
+		break;
+	    memset(&q, 0, sizeof(q));
+	    q.kind = CSP_UNKNOWN; q.handle = -1;
+	    q.c0 = -0.8 + 0.3 * I;
+	    q.guess_scale = 1.15 * cexp(0.25 * I);
+	    base.param[base.nparam] = q;
+	    st = &base.std[base.nstd];
+	    memset(st, 0, sizeof(*st));
+	    st->entry = CSE_SINGLE; st->np = 1; st->port[0] = 1;
+	    st->sp[0] = base.nparam;
+	    st->id = 300;
+	    ++base.nparam;
+	    ++base.nstd;
+	}
+	/* both descriptions iterate to the end, not to the default 1e-6 */
+	cs_solve_tolerance = upass ? 1e-13 : 0.0;
 	run_once(&base, 0, 0, 1, &A, r);
 	int pi[CS_MAXP];
 	for (int i = 0; i < P; ++i) pi[i] = i;
@@ -827,11 +851,14 @@ static void run(int tier, long idx, vf_result *r)
 		vnacal_free(vcp);
 	    }
 	    snprintf(what, sizeof(what), "VNA ports renumbered by "
-		    "permutation [%d %d %d %d] (first %d used)", pi[0] + 1,
+		    "permutation [%d %d %d %d] (first %d used)%s", pi[0] + 1,
 		    pi[1] + 1, P > 2 ? pi[2] + 1 : 0, P > 3 ? pi[3] + 1 : 0,
-		    P);
+		    P, upass ? ", with a reflection of unknown value on "
+		    "port 1 added to the set" : "");
 	    compare(r, "renumber", tname, &A, &B, P, what);
 	}
+	}
+	cs_solve_tolerance = 0.0;
 	break;
     }
     }
